@@ -142,6 +142,31 @@ pub fn near_repeat_streams() -> Vec<StreamCase> {
         }
         v.push(mk(verb.clone(), channels, bps, s, 7100 + k as u64));
     }
+    // unit values where a corrupted field multiplies, shifts or sign-extends them: constant blocks of 1, -1, 0, 2, -2
+    // and verbatim blocks whose first sample is 1, -1, 0, the minimum, the maximum
+    for (k, (channels, bps)) in [(1usize, 16usize), (2, 8), (1, 24)].into_iter().enumerate() {
+        let mut s = vec![];
+        for l in [1i32, -1, 0, 2, -2] {
+            for _ in 0..32 {
+                for c in 0..channels {
+                    s.push(if c == 0 { l } else { -l });
+                }
+            }
+        }
+        v.push(mk(dflt.clone(), channels, bps, s, 7200 + k as u64));
+    }
+    for (k, (channels, bps)) in [(1usize, 8usize), (2, 16)].into_iter().enumerate() {
+        let mut r = Sm64::new(99 + k as u64);
+        let lo = -(1i64 << (bps - 1));
+        let hi = (1i64 << (bps - 1)) - 1;
+        let mut s = vec![];
+        for first in [1i64, -1, 0, lo, hi] {
+            for t in 0..32 * channels {
+                s.push(if t < channels { first as i32 } else { r.range_i64(lo, hi) as i32 });
+            }
+        }
+        v.push(mk(verb.clone(), channels, bps, s, 7300 + k as u64));
+    }
     v
 }
 
@@ -434,7 +459,7 @@ pub fn small_stream(i: u64) -> StreamCase {
 
 pub fn run(ctx: &Ctx) {
     ctx.rule(
-        "fault enumeration on small emitted streams (8 crafted streams in quick, + generated ones in thorough; mono/stereo, all subframe kinds, 1..=4 frames; plus the head and the last six frames of a 130-frame stream, whose frame numbers need two bytes; plus 6 streams whose consecutive frames are identical or one short burst apart - constant levels 5/4/4/7/-1/0, a repeated noise block with one-sample changes under a verbatim-only configuration): at EVERY byte position every single-bit flip and every burst of length 2..=8 (first and last bit flipped, all interior patterns) at every bit offset, and truncation at every byte; for a stream with a 98 KiB frame (thorough: also 64 KiB and 290 KiB frames) the same at ~200 sampled byte positions per frame (header, CRC, around offsets 2^16 and 2^17, spread) with the burst set {1 bit, 2 bits, 8 bits with all / no interior bits}; \
+        "fault enumeration on small emitted streams (8 crafted streams in quick, + generated ones in thorough; mono/stereo, all subframe kinds, 1..=4 frames; plus the head and the last six frames of a 130-frame stream, whose frame numbers need two bytes; plus 6 streams whose consecutive frames are identical or one short burst apart - constant levels 5/4/4/7/-1/0, a repeated noise block with one-sample changes under a verbatim-only configuration; plus 5 streams of unit values: constant blocks of 1/-1/0/2/-2 and verbatim blocks whose first sample is 1/-1/0/min/max): at EVERY byte position every single-bit flip and every burst of length 2..=8 (first and last bit flipped, all interior patterns) at every bit offset, and truncation at every byte; for a stream with a 98 KiB frame (thorough: also 64 KiB and 290 KiB frames) the same at ~200 sampled byte positions per frame (header, CRC, around offsets 2^16 and 2^17, spread) with the burst set {1 bit, 2 bits, 8 bits with all / no interior bits}; \
          oracle: catch_unwind(parser::stream) never unwinds; if the mutant is accepted its frames decode without panic and, when all altered bits lie inside one frame, to the original audio; \
          second part (panic oracle only): random byte strings and structure-aware mutations of frames with CRC-8/CRC-16 recomputed so that the code behind the checksums is reached; \
          evaluations = number of mutants parsed; non-trivial = alteration inside a frame that leaves the sync code intact; distinct by (stream, byte position)",
